@@ -1564,3 +1564,87 @@ pub fn cmd_selftest(_args: &[String]) -> i32 {
     let _ = std::fs::remove_file(&outp);
     if ok { 0 } else { 1 }
 }
+
+// ===========================================================================
+// c08-stream: several response frames back to back in ONE reader (what a connection's read half sees). For every
+// frame read: header fields, body length, first / last body byte and the number of body bytes that are not what the
+// generator put there. `vh-cql c08-stream <in.ndjson> <out.ndjson>`; input line {"id":N,"lens":[body length per frame]}.
+// Byte j of the body of frame i (0-based) is (i * 31 + j) % 251; stream id = i; opcode READY (0x02) .. irrelevant to the reader.
+// ===========================================================================
+
+pub fn stream_body_byte(i: usize, j: usize) -> u8 {
+    ((i * 31 + j) % 251) as u8
+}
+
+pub fn cmd_stream(args: &[String]) -> i32 {
+    use std::io::{BufRead, Write};
+    if args.len() != 2 {
+        eprintln!("usage: vh-cql c08-stream <in.ndjson> <out.ndjson>");
+        return 2;
+    }
+    let inp = match std::fs::File::open(&args[0]) {
+        Ok(f) => std::io::BufReader::new(f),
+        Err(e) => {
+            eprintln!("open {}: {e}", args[0]);
+            return 2;
+        }
+    };
+    let mut out = match std::fs::File::create(&args[1]) {
+        Ok(f) => std::io::BufWriter::new(f),
+        Err(e) => {
+            eprintln!("create {}: {e}", args[1]);
+            return 2;
+        }
+    };
+    let mut n = 0u64;
+    for line in inp.lines() {
+        let Ok(line) = line else { return 2 };
+        if line.trim().is_empty() {
+            continue;
+        }
+        let Ok(j) = serde_json::from_str::<Value>(&line) else {
+            eprintln!("bad line");
+            return 2;
+        };
+        let lens: Vec<usize> = j["lens"].as_array().map(|a| a.iter().filter_map(|x| x.as_u64()).map(|x| x as usize).collect()).unwrap_or_default();
+        let mut bytes: Vec<u8> = Vec::new();
+        for (i, len) in lens.iter().enumerate() {
+            bytes.extend_from_slice(&[0x84, 0x00]);
+            bytes.extend_from_slice(&(i as i16).to_be_bytes());
+            bytes.push(0x02);
+            bytes.extend_from_slice(&(*len as u32).to_be_bytes());
+            bytes.extend((0..*len).map(|k| stream_body_byte(i, k)));
+        }
+        let mut frames: Vec<Value> = Vec::new();
+        let mut first_panic = None;
+        let mut rd = &bytes[..];
+        for i in 0..lens.len() {
+            let r = guard(&mut first_panic, || block_on(read_response_frame(&mut rd)));
+            match r {
+                Err(p) => {
+                    frames.push(json!({"ok":0,"err":p}));
+                    break;
+                }
+                Ok(Err(e)) => {
+                    frames.push(json!({"ok":0,"err":err_text(&e)}));
+                    break;
+                }
+                Ok(Ok((params, opcode, body))) => {
+                    let wrong = body.iter().enumerate().filter(|(k, b)| **b != stream_body_byte(i, *k)).count();
+                    frames.push(json!({"ok":1,"stream":params.stream,"opcode":opcode as u8,"flags":params.flags,"body_len":body.len(),
+                        "first": body.first().copied().map(|b| b as i64).unwrap_or(-1), "last": body.last().copied().map(|b| b as i64).unwrap_or(-1), "wrong":wrong}));
+                }
+            }
+        }
+        let o = json!({"id": j["id"], "lens": lens, "frames": frames, "rest": rd.len()});
+        if writeln!(out, "{o}").is_err() {
+            return 2;
+        }
+        n += 1;
+    }
+    if out.flush().is_err() {
+        return 2;
+    }
+    println!("{}", json!({"cmd":"c08-stream","lines":n}));
+    0
+}
